@@ -21,7 +21,8 @@ ANN = [('# hello world', True, 'hello world'), ('// slashes', True, 'slashes'), 
 RULE = ('grammar-derived accepted texts and token-mutated rejected texts x every token boundary (also inside lists, after =, between section name/title and {, '
         'inside call arguments) x %d inserted forms (#x //x /*x*/ multi-line, empty and marker-only comments, blanks, newlines), annotation support on and off: '
         'return code and values-only tree hash must equal the uncommented run. Annotation clause (support on): a comment placed immediately before a top-level '
-        'scalar / non-empty-list assignment is returned trimmed by the comment getter, printed, and read back by a re-parse of the print. '
+        'scalar / non-empty-list assignment is returned trimmed by the comment getter, printed, and read back by a re-parse of the print; values and annotations of the whole tree '
+        'equal those of the uncommented text with that one annotation set through the API (the comment reaches no other option). '
         'non-trivial: the insertion point is inside an item or the comment is empty/multi-line; distinct = (text, boundary, form, flag)' % len(FORMS))
 
 
